@@ -86,8 +86,10 @@ class G:
                 bs.append(3)
             elif v < 0.75:
                 bs.append(self.r.choice([1, 2, 3, 4, 5]))
-            elif v < 0.9:
+            elif v < 0.85:
                 bs.append(min(s + self.r.choice([0, 1, 2]), 12))
+            elif v < 0.9:
+                bs.append(min(2 * s + self.r.choice([2, 3, 5]), 15))      # half-width beyond the whole axis
             else:
                 bs.append(max(1, s - 1) if s <= 12 else 7)
         n = 1
